@@ -174,43 +174,8 @@ def run(ctx: Ctx, rep: Report, tier: str):
     # --- parent-first ordering
     rep.rule("C01.R8", "parent first: when a changed parent folder blocks an entry, both priority assignments of the gentle punt leave the parent's "
              "priority strictly below (= earlier than) the child's, and a non-negative priority never becomes negative", 2)
-    from sa import linear
-    ec = M.methods["embrace_change"]
-    sy = ec.params()[1]
-    cf = local_assigned_from(ctx, ec, "self._get_parent_conflict($$$)")
-    if cf is None:
-        raise AnalysisError("embrace_change: parent conflict is not bound to a single local")
-    mp = None
-    for n_ in ctx.own_nodes(ec):
-        if isinstance(n_, ast.Assign) and isinstance(n_.targets[0], ast.Name) and isinstance(n_.value, ast.Call) and pat.match("min(%s.priority, %s.priority)" % (sy, cf), n_.value) is not None:
-            mp = n_.targets[0].id
-    arms = {}
-    for n_ in ctx.own_nodes(ec):
-        if isinstance(n_, ast.Assign) and isinstance(n_.targets[0], ast.Attribute) and n_.targets[0].attr == "priority" and isinstance(n_.targets[0].value, ast.Name) \
-                and n_.targets[0].value.id in (sy, cf) and mp is not None and any(isinstance(x, ast.Name) and x.id == mp for x in ast.walk(n_.value)):
-            neg_arm = fact_in(ctx.facts_at(ec, n_), "%s < 0" % mp, True)
-            arms.setdefault(neg_arm, {})[n_.targets[0].value.id] = n_
-    if mp is None or len(arms) != 2:
-        raise AnalysisError("embrace_change: the two priority arms of the parent-conflict punt were not recognised")
-    for neg_arm, d in sorted(arms.items()):
-        ok = sy in d and cf in d
-        detail = "both priorities must be assigned"
-        if ok:
-            sym = lambda e: "m" if isinstance(e, ast.Name) and e.id == mp else None   # noqa: E731
-            try:
-                a, b = linear.linear(d[cf].value, sym), linear.linear(d[sy].value, sym)
-                diff = {k: a.get(k, 0) - b.get(k, 0) for k in set(a) | set(b)}
-                diff = {k: v for k, v in diff.items() if v != 0}
-                ok = set(diff) == {"1"} and diff["1"] < 0
-                # non-negative stays non-negative: in the arm where m >= 0 both offsets are >= 0
-                if not neg_arm:
-                    ok = ok and a.get("1", 0) >= 0 and b.get("1", 0) >= 0
-                detail = "parent = m%+g, child = m%+g" % (float(a.get("1", 0)), float(b.get("1", 0)))
-            except linear.Undecided as e_:
-                rep.error("rule=C01.R8 reason=undecided: %s" % e_)
-                continue
-        rep.check("C01.R8", "embrace_change|parent-first|%s" % ("m<0" if neg_arm else "m>=0"), ctx.line(ec, d.get(cf, d.get(sy))), ok, detail,
-                  "after the gentle punt the blocking parent is not strictly ahead of its child (%s): child and parent keep swapping / the child is tried first for ever" % detail)
+    from rules.common import parent_first_priorities
+    parent_first_priorities(ctx, rep, "C01.R8")
     rep.rule("C01.R9", "the parent-conflict search climbs every ancestor: inside its loop _get_parent_conflict moves to the parent and recomputes the parent's parent", 1)
     gp = M.methods["_get_parent_conflict"]
     loops = [n for n in ctx.own_nodes(gp) if isinstance(n, ast.While)]
@@ -275,3 +240,10 @@ def run(ctx: Ctx, rep: Report, tier: str):
     rep.rule("C01.R16", "the sync step dispatches on the state of the changed side, each arm under exactly its own condition: missing -> handle_changed_is_missing, renamed or new -> "
              "handle_path_change_or_creation, content differs / corrupt peer -> handle_hash_diff", 3)
     embrace_dispatch(ctx, rep, "C01.R16")
+    from rules.C07 import C07 as _C07
+    _alias(rep, ["C07.R6"], "C01.R17", "a download that failed half-way is never taken for a complete one (C07.R6: bytes go to a '.tmp' sibling, published by rename): the two sides "
+           "do not end up quiet with a truncated copy", 2, lambda: _C07(ctx, rep).r6())
+    from rules.common import dir_delete_rechecks_kids
+    rep.rule("C01.R18", "a folder delete that meets children makes progress: the children are looked up under the folder's current path on the deleting side and force-synced, "
+             "and so is the folder (C04.R7) - otherwise the delete is retried until it is given up and the trees stay different", 3)
+    dir_delete_rechecks_kids(ctx, rep, "C01.R18")
